@@ -13,5 +13,6 @@ CONSTANTS
   Multis = {FALSE, TRUE}
   Muts = {0}
   RouteIds = {1}
+  Reconfs = {0}
   Rounds = 1
 PROPERTY Termination
